@@ -785,6 +785,10 @@ func (d *partialArray) remove(key string, options *ApplyOptions) error {
 
 	idx, err := strconv.Atoi(key)
 	if err != nil {
+		// A number too large for an int is an index that no array has.
+		if errors.Is(err, strconv.ErrRange) && options.AllowMissingPathOnRemove {
+			return nil
+		}
 		return err
 	}
 
